@@ -106,7 +106,7 @@ def body_select(case, ctx):
     sel = case["sel"]
     obj = cls(k)(*[f.copy() for f in fs])
     idx = py_sel(sel)
-    ctx.label("k:%d" % k, "sel:" + sel[0])
+    ctx.label("k:%d" % k, "sel:" + sel[0] + (":list" if sel[0] == "m" and not sel[2] else ""))
     if sel[0] == "i":
         exp = [f[sel[1]] for f in fs]
         ctx.nt(k >= 2)
@@ -263,7 +263,7 @@ def select_case(draw, tier):
     else:
         sel = draw(st.one_of(st.tuples(st.integers(-n, n - 1), st.booleans()).map(lambda t: ["i", t[0], t[1]]), gen.slice_st(n), gen.slice_st(n),
                              st.tuples(st.lists(st.integers(-n, n - 1), max_size=n + 2), st.sampled_from(["list", "int64"])).map(lambda t: ["l", t[0], t[1]]),
-                             st.lists(st.booleans(), min_size=n, max_size=n).map(lambda m: ["m", m, True])))
+                             st.tuples(st.lists(st.booleans(), min_size=n, max_size=n), st.booleans()).map(lambda t: ["m", t[0], t[1]])))
         if sel[0] == "l" and not sel[1]:
             sel[2] = "int64"
     return {"fields": fields, "n": n, "sel": sel}
